@@ -349,7 +349,9 @@ def main_check(prop, tier, base_seed, budget, max_runs, workers, verbose=False):
     t0 = time.time()
     preload()
     known_entries = [e for e in load_known() if e["property"] == prop]
-    deadline = t0 + budget
+    # C03 spends the last part of its budget on re-executing histories in
+    # fresh interpreters under other string-hash seeds
+    deadline = t0 + (budget * 0.65 if prop == "C03" else budget)
     results = []
     harness_errors = []
     agg = Counter()
@@ -430,7 +432,7 @@ def main_check(prop, tier, base_seed, budget, max_runs, workers, verbose=False):
     cross_found = []
     if prop == "C03" and not first_violation and not harness_errors and results:
         by_idx = {r["idx"]: r for r in results}
-        n_cross = min(len(results), 64 if tier == "quick" else 600)
+        n_cross = min(len(results), 64 if tier == "quick" else 240)
         # contiguous prefix only
         n_cross = next((i for i in range(n_cross) if i not in by_idx), n_cross)
         hs = (1, 4242) if tier == "quick" else (1, 4242, "random", 31337)
